@@ -1,7 +1,7 @@
 (* Proofs about Model/FromDmrs.v (C04): the structure of the MRS built from a DMRS. *)
 From Coq Require Import List NArith ZArith Bool Arith Lia.
 From PyD Require Import Base.Str Base.Dec Model.Hier Model.Mrs Model.Convert Model.FromDmrs
-     Proofs.SimpleMrsP Proofs.ConvertP2.
+     Proofs.SimpleMrsP Proofs.ConvertP Proofs.ConvertP2.
 Import ListNotations.
 
 Definition roles_ok (d : dmrs) : bool :=
@@ -184,4 +184,55 @@ Proof.
     exists lq, ivs. split; [reflexivity|]. simpl in E. subst new.
     split; [exact F|]. split; [exact Q|]. split; [reflexivity|]. split; [split; reflexivity|].
     intros t' Ht'. discriminate.
+Qed.
+
+(* DMRS -> MRS -> DMRS keeps the nodes' predicates and constants, in order *)
+Theorem roundtrip_nodes_basic d choice m d' : roles_ok d = true ->
+  mrs_from_dmrs d choice = Some m ->
+  dmrs_from_mrs m = COk d' ->
+  map (fun n => (dn_pred n, dn_carg n)) (d_nodes d') = map (fun n => (dn_pred n, dn_carg n)) (d_nodes d).
+Proof.
+  intros Hr Hm Hd. rewrite (Proofs.ConvertP.dmrs_nodes_basic m d' Hd).
+  destruct (from_dmrs_spec d choice m Hm) as (lq & ivs & _ & F & _).
+  clear Hm Hd. induction F as [|n e ns es Hne F IH]; [reflexivity|].
+  cbn [map]. rewrite IH. f_equal.
+  rewrite (eon_pred _ _ _ _ _ _ Hne), (eon_carg _ _ _ _ _ _ Hne Hr). reflexivity.
+Qed.
+
+(* links produced from an MRS never carry the ARG0 or CARG role *)
+Lemma from_mrs_roles_ok m d : dmrs_from_mrs m = COk d -> roles_ok d = true.
+Proof.
+  intros H. destruct (dmrs_nodes_spec m d H) as (ids & reps & _ & _ & _ & _ & Hl).
+  unfold roles_ok. apply forallb_forall. intros l Hin. rewrite Hl in Hin. apply in_app_or in Hin.
+  destruct Hin as [Hin|Hin].
+  - apply in_flat_map in Hin. destruct Hin as ([ls w] & Hpa & Hl'). cbn [fst] in Hl'.
+    unfold per_arg in Hpa. apply in_flat_map in Hpa. destruct Hpa as ([i e] & _ & Hm).
+    apply in_map_iff in Hm. destruct Hm as ([role tgt] & E & Hrv). cbn [fst snd] in *.
+    unfold ep_arguments in Hrv. apply filter_In in Hrv. destruct Hrv as [_ Hf]. cbn [fst] in Hf.
+    apply andb_true_iff in Hf. destruct Hf as [Hf _]. apply negb_true_iff in Hf. apply orb_false_iff in Hf.
+    destruct Hf as [F0 FC].
+    assert (R : link_role l = role).
+    { unfold arg_link in E.
+      destruct (iv_to_nid m ids tgt); [inversion E; subst; destruct Hl' as [<-|[]]; reflexivity|].
+      destruct (hc_get (m_hcons m) tgt) as [c|].
+      - destruct (dict_get (snd c) reps) as [[|r rest]|]; inversion E; subst; try (destruct Hl'; fail).
+        destruct Hl' as [<-|[]]. reflexivity.
+      - destruct (dict_get tgt reps) as [[|r rest]|]; inversion E; subst; try (destruct Hl'; fail).
+        destruct Hl' as [<-|[]]. reflexivity. }
+    rewrite R, F0, FC. reflexivity.
+  - unfold mod_links in Hin. apply in_flat_map in Hin. destruct Hin as ([lbl rs] & _ & Hm). cbn [snd] in Hm.
+    destruct rs as [|f rest]; [destruct Hm|]. apply in_map_iff in Hm. destruct Hm as (s & <- & _). reflexivity.
+Qed.
+
+(* MRS -> DMRS -> MRS keeps the predications' predicates and constants, in order *)
+Theorem roundtrip_rels_basic m d choice m' :
+  dmrs_from_mrs m = COk d -> mrs_from_dmrs d choice = Some m' ->
+  map (fun e => (e_pred e, e_carg e)) (m_rels m') = map (fun e => (e_pred e, e_carg e)) (m_rels m).
+Proof.
+  intros Hd Hm. rewrite <- (dmrs_nodes_basic m d Hd).
+  pose proof (from_mrs_roles_ok m d Hd) as Hr.
+  destruct (from_dmrs_spec d choice m' Hm) as (lq & ivs & _ & F & _).
+  clear Hm Hd. induction F as [|n e ns es Hne F IH]; [reflexivity|].
+  cbn [map]. rewrite IH. f_equal.
+  rewrite (eon_pred _ _ _ _ _ _ Hne), (eon_carg _ _ _ _ _ _ Hne Hr). reflexivity.
 Qed.
